@@ -391,14 +391,30 @@ static int loc_id(const void* a) {
 static const char* mo_name(int mo) {
   switch (mo) { case 0: return "rlx"; case 1: return "con"; case 2: return "acq"; case 3: return "rel"; case 4: return "ar"; default: return "sc"; }
 }
-static void uaf(const void* a, const char* what) {
+static void uaf(const void* a, const char* what, void* pc, void* fp) {
   static int reported = 0;
-  if (reported++ < 8) logf("{\"e\":\"uaf\",\"t\":%d,\"op\":\"%s\",\"a\":%u,\"b\":%ld,\"r\":0,\"v\":0}\n", tid(), what, block_of(a), (long)((uintptr_t)a & 0xfff));
+  if (reported++ < 8) {
+    if (log_steps) {
+      // call stack of the offending access (frame-pointer walk; drivers are built with -fno-omit-frame-pointer)
+      char stk[256]; int n = snprintf(stk, sizeof stk, "%lx", (unsigned long)pc);
+      void** f = (void**)fp;
+      for (int d = 0; d < 8 && f && n < 200; d++) {
+        void* ra = f[1]; void** nf = (void**)f[0];
+        if (!ra) break;
+        n += snprintf(stk + n, sizeof stk - (size_t)n, ",%lx", (unsigned long)ra);
+        if (nf <= f || (char*)nf - (char*)f > (1 << 20)) break;
+        f = nf;
+      }
+      logf("{\"e\":\"uaf\",\"t\":%d,\"op\":\"%s\",\"a\":%u,\"b\":%ld,\"r\":0,\"v\":0,\"pc\":\"%s\"}\n", tid(), what, block_of(a), (long)((uintptr_t)a & 0xfff), stk);
+    }
+    else logf("{\"e\":\"uaf\",\"t\":%d,\"op\":\"%s\",\"a\":%u,\"b\":%ld,\"r\":0,\"v\":0}\n", tid(), what, block_of(a), (long)((uintptr_t)a & 0xfff));
+  }
 }
-static inline void chk(const void* a, const char* what) {
+#define chk(a, what) chk_((a), (what), __builtin_return_address(0), __builtin_frame_address(0))
+static inline void chk_(const void* a, const char* what, void* pc, void* fp) {
   if (!g_in_child) return;
   size_t off = (size_t)((const char*)a - arena_base);
-  if (off < ARENA && shadow[off / GRAN] == 2) uaf(a, what);
+  if (off < ARENA && shadow[off / GRAN] == 2) uaf(a, what, pc, *(void**)fp);
 }
 static void step_ev(const char* kind, const void* a, uint64_t v, int mo, int ok, void* pc) {
   if (!log_steps || !active || my_tid < 0) return;
@@ -716,7 +732,7 @@ int explore_main(int argc, char** argv, const std::function<Scenario(const std::
     S.distinct++; traceno++;
     fprintf(fo, "{\"e\":\"reset\",\"t\":9,\"op\":\"p%d\",\"a\":%ld,\"b\":0,\"r\":0,\"v\":0}\n", pi, traceno);
     fwrite(r.events.data(), 1, r.events.size(), fo);
-    if (fs) fprintf(fs, "%ld\t%s\t%s\t%s\t%s\n", traceno, prog.c_str(), r.outcome.c_str(), r.dec_line.c_str(), r.tids_line.c_str());
+    if (fs) fprintf(fs, "%ld\t%s\t%s\t%s\t%s\t%d\n", traceno, prog.c_str(), r.outcome.c_str(), r.dec_line.c_str(), r.tids_line.c_str(), pb);
   };
 
   if (modes == "replay") {
@@ -732,7 +748,12 @@ int explore_main(int argc, char** argv, const std::function<Scenario(const std::
     for (size_t pi = 0; pi < progs.size(); pi++) {
       const std::string& prog = progs[pi];
       if (modes == "dfs" || modes == "solo") {
-        std::vector<Dec> prefix; long n_exec = 0; bool first = true;
+       // iterative preemption bounding: all schedules with 0, then <= 1, then <= 2 ... preemptions, so that a truncated
+       // search has covered the simplest schedules completely (duplicates are dropped by the trace hash)
+       const int pb_max = pb; long n_exec = 0; bool truncated = false;
+       for (int b = (pb_max > 0 ? 0 : pb_max); b <= pb_max && !truncated; b++) {
+        pb = b;
+        std::vector<Dec> prefix; bool first = true;
         for (;;) {
           ChildCtl c; c.mode = M_DFS; c.prefix = prefix;
           bool skip = false;
@@ -772,10 +793,12 @@ int explore_main(int argc, char** argv, const std::function<Scenario(const std::
           first = false;
           while (!decs_after.empty() && decs_after.back().chosen + 1 >= decs_after.back().nopts) decs_after.pop_back();
           if (decs_after.empty()) break;
-          if (n_exec >= max_exec) { S.truncated++; break; }
+          if (n_exec >= max_exec) { S.truncated++; truncated = true; break; }
           decs_after.back().chosen++;
           prefix = decs_after;
         }
+       }
+       pb = pb_max;
       } else if (modes == "random") {
         ChildCtl c0; c0.mode = M_RANDOM; c0.seed = (uint64_t)seed * 1000003ull + pi;
         ChildResult base = run_child(make, prog, c0, alarm_s);
